@@ -72,7 +72,7 @@ class wall_guard(object):
         self._outer = signal.getitimer(signal.ITIMER_REAL)[0]
         self._old = signal.signal(signal.SIGALRM, self._fire)
         limit = self.seconds if not self._outer else min(self.seconds, self._outer)
-        signal.setitimer(signal.ITIMER_REAL, limit)
+        signal.setitimer(signal.ITIMER_REAL, limit, 5.0)  # fires again every 5 s should the exception be swallowed
         return self
 
     def __exit__(self, *exc):
@@ -82,7 +82,7 @@ class wall_guard(object):
         signal.signal(signal.SIGALRM, self._old)
         if self._outer:
             remaining = self._outer - (time.time() - self._t0)
-            signal.setitimer(signal.ITIMER_REAL, max(remaining, 0.01))
+            signal.setitimer(signal.ITIMER_REAL, max(remaining, 0.01), 5.0)
         return False
 
 
@@ -399,6 +399,7 @@ def run_pipeline(text, engine_factory=None, sched=None, budget=200000, sort_list
     outcome["fast_mismatch"]). Returns an outcome dict."""
     from sim import lfeval
 
+    saved = (CLOCK.steps, CLOCK.budget, CLOCK.cb_calls, CLOCK.cb_budget, CLOCK.crc)
     CLOCK.reset(budget)
     install_scheduler(sched)
     fast = None
@@ -446,10 +447,10 @@ def run_pipeline(text, engine_factory=None, sched=None, budget=200000, sort_list
     finally:
         guard.__exit__()
         install_scheduler(None)
-        CLOCK.budget = None
-        CLOCK.cb_budget = None
     o["steps"] = CLOCK.steps
     o["trace"] = "%08x" % (CLOCK.crc & 0xFFFFFFFF)
+    # an enclosing history (C08, C29) keeps its own clock and budgets
+    CLOCK.steps, CLOCK.budget, CLOCK.cb_calls, CLOCK.cb_budget, CLOCK.crc = saved
     return o
 
 
